@@ -332,8 +332,9 @@ class FundamentalShock(Harness):
     reach = ("nontrivial", "non-target-step-checked", "outside-window-step-checked")
     bounds = {"quick": "3 markets (zero volatility), sessions of 2+3 steps, shock in either session, trigger offset "
                        "0..2, window 1..3, enabled true/false, no orders; generation chunk 100 or shrunk to 2 steps "
-                       "(chunk boundaries after the shock)",
-              "thorough": "same plus a drifting market and scripted orders"}
+                       "(chunk boundaries after the shock); a second shock with its own rate on an earlier, a later or the "
+                       "same market with an overlapping window, or in the other session",
+              "thorough": "all three targets for every placement"}
     assumptions = (rn.REDUCTION_NOTE,
                    "priceChangeRate is passed to the real setup() as a solver real (setup stores it unchecked)",
                    "zero volatility so that regeneration after the shock involves no sampling")
@@ -348,6 +349,14 @@ class FundamentalShock(Harness):
                         out.append({"where": where, "k": k, "w": w, "target": target, "enabled": True,
                                     "chunk": 2 if (k + w) % 2 else 100})
             out.append({"where": where, "k": 0, "w": 2, "target": "M1", "enabled": False})
+            # a second shock (its own rate) whose window overlaps: on a market stepped earlier, later, or the same one
+            for t2 in ("M0", "M2", "M1"):
+                out.append({"where": where, "k": 0, "w": 2, "target": "M1", "enabled": True, "chunk": 100,
+                            "second": {"target": t2, "k": 1, "w": 2, "where": where}})
+            out.append({"where": where, "k": 1, "w": 1, "target": "M1", "enabled": True, "chunk": 2,
+                        "second": {"target": "M2", "k": 1, "w": 1, "where": where}})
+        out.append({"where": 0, "k": 1, "w": 2, "target": "M0", "enabled": True, "chunk": 100,
+                    "second": {"target": "M1", "k": 0, "w": 2, "where": 1}})
         return out
 
     def run(self, g, case):
@@ -358,8 +367,16 @@ class FundamentalShock(Harness):
         sessions[case["where"]].setdefault("events", []).append("SHOCK")
         shock = {"class": "FundamentalPriceShock", "target": case["target"], "triggerTime": case["k"],
                  "priceChangeRate": rate, "shockTimeLength": case["w"], "enabled": case["enabled"]}
-        st = rn.base_settings(n_agents=1, sessions=sessions, markets=markets,
-                              extra={"SHOCK": shock, "PROBE": {"class": "ProbeAll"}})
+        extra = {"SHOCK": shock, "PROBE": {"class": "ProbeAll"}}
+        shocks = [(case["where"], case["k"], case["w"], case["target"], rate, case["enabled"])]
+        if case.get("second"):
+            sc = case["second"]
+            rate2 = g.real("rate2", -1, 10, lo_strict=True)
+            sessions[sc["where"]].setdefault("events", []).append("SHOCK2")
+            extra["SHOCK2"] = {"class": "FundamentalPriceShock", "target": sc["target"], "triggerTime": sc["k"],
+                               "priceChangeRate": rate2, "shockTimeLength": sc["w"]}
+            shocks.append((sc["where"], sc["k"], sc["w"], sc["target"], rate2, True))
+        st = rn.base_settings(n_agents=1, sessions=sessions, markets=markets, extra=extra)
         before, after = {}, {}
 
         def on_event(kind, agent, p):
@@ -371,19 +388,23 @@ class FundamentalShock(Harness):
         sim = ctx.sim
         sim.fundamentals._generate_chunk_size = case.get("chunk", 100)     # public instance attribute
         ctx.runner._run()
-        start = 0 if case["where"] == 0 else 2
-        lo, hi = start + case["k"], start + case["k"] + case["w"] - 1
-        tid = sim.name2market[case["target"]].market_id
         for (mid, t), b in sorted(before.items()):
             a = after[mid, t]
-            hit = case["enabled"] and mid == tid and lo <= t <= hi
+            factor, hit = 1, False
+            for where, k, w, target, r, enabled in shocks:
+                start = 0 if where == 0 else 2
+                if enabled and mid == sim.name2market[target].market_id and start + k <= t <= start + k + w - 1:
+                    factor, hit = factor * (1 + r), True
+                    if len(shocks) > 1:
+                        g.note("two-shocks")
             if hit:
                 g.note("nontrivial")
-                g.require(a == b * (1 + rate), "C14.shock-magnitude", f"market {mid} t={t}")
+                g.require(a == b * factor, "C14.shock-magnitude", f"market {mid} t={t}")
             else:
-                g.note("non-target-step-checked" if mid != tid else "outside-window-step-checked")
+                g.note("non-target-step-checked" if all(mid != sim.name2market[x[3]].market_id for x in shocks)
+                       else "outside-window-step-checked")
                 g.require(a == b, "C14.fundamental-changed-outside-target-window",
-                          f"fundamental of market {mid} changed at t={t} (target {tid}, window {lo}..{hi})")
+                          f"fundamental of market {mid} changed at t={t} (shocks {[(x[0], x[1], x[2], x[3]) for x in shocks]})")
             if (mid, t + 1) in before:
                 g.require(before[mid, t + 1] == a, "C14.later-values-continue-from-shocked-level",
                           f"market {mid}: value at t={t + 1} does not continue from the value at t={t}")
@@ -415,6 +436,10 @@ class MistakeShock(Harness):
                     for target in ("M0", "M1"):
                         out.append({"where": where, "k": k, "sign": sign, "enabled": enabled, "target": target,
                                     "A": 2 if tier == "quick" else 3})
+        # orders at the trigger time and in the step after it (a shock not used at its time stays unused)
+        for where, k in ((0, 0), (1, 0)):
+            for target in ("M0", "M1"):
+                out.append({"where": where, "k": k, "sign": "+", "enabled": True, "target": target, "A": 2, "span": "post"})
         return out
 
     def run(self, g, case):
@@ -435,8 +460,9 @@ class MistakeShock(Harness):
         trigger = (0 if case["where"] == 0 else 1) + case["k"]
         # every agent quotes one non-crossing limit order per step on a solver-chosen market (buy below / sell
         # above the market price), from the step before the trigger time to the trigger time
-        menu = {"acts": ["limit"], "vol_fixed": 1, "price_rel": 10, "active_from": max(trigger - 1, 0),
-                "active_until": trigger, "per_agent": {"0": {"side": "B"}, "1": {"side": "S"}}}
+        post = case.get("span") == "post"
+        menu = {"acts": ["limit"], "vol_fixed": 1, "price_rel": 10, "active_from": trigger if post else max(trigger - 1, 0),
+                "active_until": trigger + 1 if post else trigger, "per_agent": {"0": {"side": "B"}, "1": {"side": "S"}}}
         ctx = rn.make_run(g, st, menu, on_event=on_event)
         sim = ctx.sim
         rate = None
@@ -479,9 +505,13 @@ class MistakeShock(Harness):
             else:
                 if case["enabled"] and is_target_time and lg.market_id == tid:
                     g.note("second-order-on-target-untouched")
+                # (an off-grid price -- 10 off a half-integer mid price -- is tick-rounded at acceptance, tick 1)
+                want_p = ask["price"]
+                if want_p is not None:
+                    want_p = math.floor(want_p) if ask["is_buy"] else math.ceil(want_p)
                 same = sand(lg.is_buy == ask["is_buy"], lg.kind == ask["kind"], lg.volume == ask["volume"],
-                            (lg.price is None and ask["price"] is None) or
-                            (lg.price is not None and ask["price"] is not None and lg.price == ask["price"]),
+                            (lg.price is None and want_p is None) or
+                            (lg.price is not None and want_p is not None and lg.price == want_p),
                             (lg.ttl is None and ask["ttl"] is None) or (lg.ttl is not None and ask["ttl"] is not None
                                                                         and lg.ttl == ask["ttl"]))
                 g.require(same, "C14.order-altered-by-mistake-shock",
